@@ -39,11 +39,11 @@ fn report(case: &Case, prop: Prop, msg: &str) -> ! {
 fuzz_target!(|data: &[u8]| {
     let c = cfg();
     let mut case = Case::from_bytes(c.engine, c.prop, data);
-    case.kind %= 3; // tracked / plain / string
+    case.kind %= mmv::case::NKINDS;
     if case.ops.len() > 96 {
         case.ops.truncate(96);
     }
-    case.univ = (case.univ % 21).max(1);
+    case.univ = (case.univ % 97).max(1); // the engines clamp it to the capacity's range
     let mut cx = Ctx::new(c.prop, false);
     mmv::dispatch::run_case(&case, &mut cx);
     if let Some(v) = &cx.viol {
